@@ -197,6 +197,17 @@ check('C18', 'model_checking',
       'TLA+ heap/copy model checked by TLC + TLC-judged observations of real copies and mutations',
       'DESIGN.md 2.9, 5/C18')
 
+check('C17', 'model_checking',
+      'RenderCall.tla models one render call (translate, compile, two-class except, fallback); TLC proves the contract '
+      'when only documented classes can be raised inside the try block and exhibits the leak for an undocumented class '
+      'and for a compile step outside the try block. Every tree from the corpora (test statements, TLC GrammarGen '
+      'sentences, one sentence per grammar production, 39 targeted unsupported shapes) x 7 dialect names x fallback '
+      'on/off x get_string/get_exec_params is rendered; outcome, exception class and the tree projection before/after '
+      'are judged by TLC (RenderTrace).',
+      'Trees come from the mindsdb parser; dialect names as listed in the property.',
+      'TLA+ model of the render call checked by TLC + TLC-judged records of real render calls',
+      'DESIGN.md 2.9, 5/C17')
+
 ALL = ['C%02d' % i for i in range(1, 21)]
 
 
